@@ -1,10 +1,13 @@
 SPECIFICATION Spec
 CONSTANTS
   InteriorRule = "sum"
-  TriLo = 0
+  BLo <- Minus1
+  BHi = 2
+  TriLo <- Minus1
   TriHi = 2
   PtLo <- Minus1
   PtHi = 3
   Shifts <- ShiftSet
+  TriSel <- AllTris
 INVARIANTS Contract RotInv TransInv TwentyFour
 CHECK_DEADLOCK FALSE
